@@ -22,7 +22,11 @@ IPV4_SRP = (1 << 16) | 73
 IPV6_SRP = (2 << 16) | 73
 EVPN = (25 << 16) | 70
 RTC = (1 << 16) | 132
-OTHERS = [IPV4_MUP, IPV6_MUP, IPV4_FS, IPV6_FS, IPV4_FSVPN, IPV6_FSVPN, LS, IPV4_SRP, IPV6_SRP, EVPN, RTC]
+# families whose NLRI decoders are in the Coq model since round 3
+MODELLED_R3 = [EVPN, RTC, IPV4_SRP, IPV6_SRP, IPV4_FS, IPV6_FS, IPV4_FSVPN, IPV6_FSVPN, IPV4_MUP, IPV6_MUP, LS]
+ALL_MODELLED = MODELLED + MODELLED_R3
+# still behind the oracle contract (harness only)
+OTHERS = []
 
 def be(n, w):
     return [(n >> (8 * (w - 1 - i))) & 0xff for i in range(w)]
@@ -167,3 +171,86 @@ def fix_hdr(b):
     if len(d) >= 19:
         d[16:18] = be(min(len(d), 0xffff), 2)
     return B(d, b.m)
+
+
+# ---------------------------------------------------------------- EVPN / RTC / SR policy / flowspec NLRI
+RD0 = [0, 0, 0xfd, 0xe8, 0, 0, 0, 100]
+ESI0 = [0] * 10
+
+def evpn(rt, data, rl=None):
+    return B([rt, (len(data) if rl is None else rl) & 0xff] + list(data))
+
+def evpn_t1(rd=RD0, esi=ESI0, etag=0, label=100):
+    return list(rd) + list(esi) + be(etag, 4) + be(label, 3)
+
+def evpn_t2(rd=RD0, esi=ESI0, etag=0, mac=(0, 0x11, 0x22, 0x33, 0x44, 0x55), ip=(), label1=100, label2=None, mac_len=48, ip_len=None):
+    il = (len(ip) * 8) if ip_len is None else ip_len
+    return list(rd) + list(esi) + be(etag, 4) + [mac_len] + list(mac) + [il] + list(ip) + be(label1, 3) + (be(label2, 3) if label2 is not None else [])
+
+def evpn_t3(rd=RD0, etag=0, ip=(192, 0, 2, 1), ip_len=None):
+    return list(rd) + be(etag, 4) + [(len(ip) * 8) if ip_len is None else ip_len] + list(ip)
+
+def evpn_t4(rd=RD0, esi=ESI0, ip=(192, 0, 2, 1), ip_len=None):
+    return list(rd) + list(esi) + [(len(ip) * 8) if ip_len is None else ip_len] + list(ip)
+
+def evpn_t5(rd=RD0, esi=ESI0, etag=0, plen=24, ip=(10, 0, 0, 0), gw=(0, 0, 0, 0), label=100):
+    return list(rd) + list(esi) + be(etag, 4) + [plen] + list(ip) + list(gw) + be(label, 3)
+
+def rtc(bits, data):
+    return B([bits] + list(data))
+
+def srp(bits, dist, color, endpoint):
+    return B([bits] + be(dist, 4) + be(color, 4) + list(endpoint))
+
+def fs_len(n, force_two=None):
+    two = (n >= 240) if force_two is None else force_two
+    return [0xf0 | ((n >> 8) & 0x0f), n & 0xff] if two else [n & 0xff]
+
+def fs_op(bits, value, order=None):
+    """operator octet (end/and/comparison bits), value in 1/2/4/8 octets"""
+    if order is None:
+        order = 0 if value <= 0xff else 1 if value <= 0xffff else 2 if value <= 0xffffffff else 3
+    return [(bits & 0xcf) | (order << 4)] + be(value & ((1 << (8 * (1 << order))) - 1), 1 << order)
+
+def fs_ops(ty, vals, end=True):
+    out = [ty]
+    for i, (bits, v) in enumerate(vals):
+        last = i == len(vals) - 1
+        out += fs_op((bits & 0x7f) | (0x80 if (last and end) else 0), v)
+    return out
+
+def fs_prefix4(ty, bits, addr):
+    return [ty, bits] + list(addr)[:(bits + 7) // 8]
+
+def fs_prefix6(ty, bits, off, addr):
+    return [ty, bits, off] + list(addr)[:(bits + 7) // 8]
+
+def flowspec(comps, rd=None, nlen=None, force_two=None):
+    body = (list(rd) if rd is not None else []) + [b for c in comps for b in c]
+    return B(fs_len(len(body) if nlen is None else nlen, force_two) + body)
+
+
+def mup(rt, body, arch=1, blen=None):
+    return B([arch] + be(rt, 2) + [(len(body) if blen is None else blen) & 0xff] + list(body))
+
+def mup_isd(plen, prefix, rd=RD0): return list(rd) + [plen] + list(prefix)
+def mup_dsd(addr, rd=RD0): return list(rd) + list(addr)
+def mup_t1st(plen, prefix, teid, qfi, ea, sa=None, rd=RD0, ea_len=None, sa_len=None):
+    out = list(rd) + [plen] + list(prefix) + be(teid, 4) + [qfi] + [(len(ea) * 8) if ea_len is None else ea_len] + list(ea)
+    if sa is None: return out + [0 if sa_len is None else sa_len]
+    return out + [(len(sa) * 8) if sa_len is None else sa_len] + list(sa)
+def mup_t2st(ea_len, ea, teid_octets, rd=RD0): return list(rd) + [ea_len] + list(ea) + list(teid_octets)
+
+
+def ls_tlv(t, value, length=None):
+    return be(t, 2) + be((len(value) if length is None else length) & 0xffff, 2) + list(value)
+
+def ls_node_desc(subtlvs, container=256, length=None):
+    body = [b for t in subtlvs for b in t]
+    return ls_tlv(container, body, length)
+
+def ls_nlri(ty, body, length=None):
+    return B(be(ty, 2) + be((len(body) if length is None else length) & 0xffff, 2) + list(body))
+
+def ls_head(proto=2, ident=0x0102030405060708):
+    return [proto] + be(ident, 8)
